@@ -56,7 +56,11 @@ def gen_constraints(rng, seq, allow_custom=True, hard=True, custom_kinds=None):
             loc = rloc(rng, min(n, 8), minlen=2)
             L = loc[1] - loc[0]
             cs.append(("EnforceChoice", kw(choices=tuple(sorted({rdna(rng, L) for _ in range(3)})), location=loc)))
-        elif r < 0.93 and hard:
+        elif r < 0.9 and n >= 24:
+            loc = rng.choice([None, rloc(rng, n, strands=(0,), minlen=10)])
+            cs.append(("UniquifyAllKmers", kw(k=rng.choice([4, 5, 6]), location=loc,
+                                              include_reverse_complement=rng.random() < 0.6)))
+        elif r < 0.94 and hard:
             # constraints that can pass with slack (score > 0) while still reporting a location
             if rng.random() < 0.5:
                 loc = rloc(rng, n, strands=(0,), minlen=6)
@@ -125,6 +129,14 @@ def gen_objectives(rng, seq, allow_custom=True):
     for o in os_:
         if o not in out:
             out.append(o)
+    if len(out) >= 2 and rng.random() < 0.25:
+        # one of the objectives is passive: it weighs in every local problem of the others
+        i = rng.randrange(len(out))
+        d = dict(out[i][1])
+        d["passive"] = True
+        if d.get("boost") in (0.0, 0.25):
+            d["boost"] = rng.choice([1.0, 2.0, 4.0])
+        out[i] = (out[i][0], tuple(sorted(d.items())))
     return out
 
 
@@ -194,6 +206,28 @@ def gen_problem(rng, with_objectives=False, allow_custom=True, custom_kinds=None
         if rng.random() < 0.5:
             os_.reverse()
         cs = [c for c in cs if c[0] not in ("EnforceTranslation", "AvoidChanges", "EnforceChoice", "EnforceSequence")]
+    elif with_objectives and fam < 0.28:
+        # a constraint that an edit OUTSIDE its location can breach (k-mers of a region must stay unique
+        # in the whole sequence) and an objective that gains by copying one of those k-mers elsewhere
+        k = rng.choice([4, 5])
+        for _ in range(60):
+            n2 = rng.choice([30, 36, 45])
+            cand = rdna(rng, n2)
+            a = rng.randint(0, n2 - 14)
+            b = a + rng.randint(10, 14)
+            kms = [cand[i:i + k] for i in range(n2 - k + 1)]
+            if all(kms.count(cand[i:i + k]) == 1 for i in range(a, b - k + 1)):
+                free = [c for c in range(0, n2 - k + 1) if c + k <= a or c >= b]
+                if not free:
+                    continue
+                c = rng.choice(free)
+                w = cand[rng.randint(a, b - k):][:k]
+                seq = cand
+                cs = [("UniquifyAllKmers", kw(k=k, location=(a, b, 0), include_reverse_complement=False))]
+                os_ = [("EnforceSequence", kw(location=(c, c + k, 1), sequence=w, boost=rng.choice([1.0, 2.0])))]
+                if rng.random() < 0.5:
+                    os_.append(("EnforceGCContent", kw(target=0.5, window=8, boost=0.5, location=None)))
+                break
     return dict(seq=seq, constraints=tuple(cs), objectives=tuple(os_), cfg=gen_settings(rng),
                 np_seed=rng.randint(0, 10**6))
 
@@ -202,6 +236,15 @@ def build_problem(p):
     import dnachisel as dc
     cs = [specs.build_spec(d) for d in p["constraints"]]
     os_ = [specs.build_spec(d) for d in p["objectives"]]
+    if specs.reused((p["seq"], repr(p["constraints"]), repr(p["objectives"])), 4):
+        # the user's specification objects have already served a problem on another sequence
+        import numpy as np
+        state = np.random.get_state()
+        try:
+            dc.DnaOptimizationProblem(specs.other_sequence(p["seq"]), constraints=cs, objectives=os_, logger=None)
+        except Exception:  # noqa
+            pass
+        np.random.set_state(state)
     return dc.DnaOptimizationProblem(p["seq"], constraints=cs, objectives=os_, logger=None)
 
 
